@@ -1,6 +1,7 @@
 """Recording machine (DESIGN 3.5): trim / filter / detrend / taper / orient /
 split / copy / edit / save / load histories on a simulated disk.  Oracle of C18."""
 import copy
+import os
 import json
 import warnings
 
@@ -72,7 +73,9 @@ def draw_op(rng, name, fault_rate):
         return {"op": "trim", "i": i, "kind": kind, "a": rng.random(), "b": rng.random(),
                 "off": rng.choice([0.0, 0.25, 0.4, 0.49, 0.51, 0.75]),
                 # times taken from an array are numpy scalars (float64, or an integer number of seconds)
-                "num": rng.choice(["float"] * 5 + ["np64", "npint"])}
+                "num": rng.choice(["float"] * 5 + ["np64", "npint"]),
+                # fault injection: the trim of the k-th component fails (an allocation failure); the caller repeats the call
+                "fault": {"at": rng.randrange(3)} if rng.random() < 0.06 else None}
     if name == "filter":
         return {"op": "filter", "i": i, "fcs": rng.choice([[0.5, None], [None, 10.0], [0.5, 10.0], [None, None]]),
                 "order": rng.choice([2, 5])}
@@ -254,6 +257,25 @@ def step(ctx, st, op, H):
             s_arg, e_arg = np.int64(s), np.int64(e)
         old = [np.array(x) for x in sample_arrays(rec, H)]
         exc = None
+        if op.get("fault") and os.environ.get("VERIF_TRIM_FAULTS", "0") != "0":
+            real_trim, calls = H.TimeSeries.trim, [0]
+
+            def failing_trim(self_, *a_, **k_):
+                calls[0] += 1
+                if calls[0] - 1 == op["fault"]["at"]:
+                    raise MemoryError("injected failure in the trim of one component")
+                return real_trim(self_, *a_, **k_)
+            H.TimeSeries.trim = failing_trim
+            try:
+                rec.trim(s_arg, e_arg)
+            except MemoryError:
+                ctx.fault("raise_in_component_trim")
+            except Exception:                               # noqa  (refused for its own reasons before the fault)
+                pass
+            finally:
+                H.TimeSeries.trim = real_trim
+            # faults have stopped: the caller repeats the identical call; it is judged below like any other trim,
+            # against the samples the recording had before the first attempt
         try:
             rec.trim(s_arg, e_arg)
         except Exception as ex:                              # noqa
